@@ -287,7 +287,7 @@ def c137(ctx):
              'of a comparison of the resolved path with the root (or sits behind a resolver that makes that comparison itself). The write tool built `<parent>/<root>.tmp-<uuid>` '
              'for path "." and left it there (the repaired F-C13-write-root).')
     SIB = r'^std::path::Path::(with_extension|with_file_name|with_added_extension)$|^std::path::PathBuf::(set_extension|set_file_name|pop|add_extension)$'
-    PEQ = r'^<std::path::(PathBuf|Path) as core::cmp::PartialEq(<.*>)?>::(eq|ne)$'
+    PEQ = r'^<&?(mut )?std::path::(PathBuf|Path) as core::cmp::PartialEq(<.*>)?>::(eq|ne)$'
     res_rx = '|'.join('^' + re.escape(r_) + '$' for r_ in RESOLVERS)
     THR7 = (r'::deref$', r'::as_ref$', r'::as_path$', r'::borrow$')
 
